@@ -273,7 +273,7 @@ fn main() {
                     n += 1;
                     evals.fetch_add(1, Ordering::Relaxed);
                     let req = request(d["method"].as_str().unwrap(), &instance_path(d), "content-type: application/json\r\nx-api-version: 1.5.0\r\n", &body);
-                    let r = ka.roundtrip(&req, false, std::time::Duration::from_secs(10));
+                    let r = ka.roundtrip(&req, d["method"] == json!("HEAD"), std::time::Duration::from_secs(10));
                     let ok = match &r {
                         ReadOutcome::Resp(resp) => if want_ok { resp.status < 400 } else { (400..500).contains(&resp.status) },
                         _ => false,
